@@ -600,6 +600,9 @@ def run(ck):
                 if kind == "duplicate_function" and d == "cl22" and "Don't yet support this call type" in msg and "c10.cl22_stack_limit" in kf:
                     ck.known_finding(kf["c10.cl22_stack_limit"])
                     continue
+                if tag == "defmacro_template" and "c10.defmacro_template" in kf:
+                    ck.known_finding(kf["c10.defmacro_template"])      # D24: the template's atoms are mangled by the old-style macro path
+                    continue
                 if tag in ("dropped", "dropped_opt", "unreachable_dup"):
                     continue        # some other error stopped the compilation; nothing is claimed for a discarded expression
                 direct.append({"clause": "the error does not name the offending identifier", "expected_one_of": ns[:6], **x})
